@@ -12,7 +12,7 @@
 //!   * (checked by the caller once all values are gone) the live set is empty.
 
 use std::alloc::{GlobalAlloc, Layout, System};
-use std::cell::{Cell, UnsafeCell};
+use std::cell::Cell;
 
 #[derive(Clone, Copy, Debug, PartialEq, Eq)]
 pub enum Op {
@@ -50,7 +50,34 @@ thread_local! {
     static MASK: Cell<u32> = const { Cell::new(0) };
     static FAIL_AT: Cell<i64> = const { Cell::new(-1) };
     static REQS: Cell<u64> = const { Cell::new(0) };
-    static LOG: UnsafeCell<Log> = const { UnsafeCell::new(Log { n: 0, overflow: false, recs: [EMPTY; CAP] }) };
+    /// the log lives in a block obtained straight from the System allocator on first use
+    /// (a static TLS array of this size would be carved out of every thread's stack)
+    static LOG: Cell<*mut Log> = const { Cell::new(core::ptr::null_mut()) };
+}
+
+fn log_ptr() -> *mut Log {
+    LOG.try_with(|c| {
+        let mut p = c.get();
+        if p.is_null() {
+            unsafe {
+                p = System.alloc(Layout::new::<Log>()) as *mut Log;
+                if p.is_null() {
+                    return p;
+                }
+                core::ptr::addr_of_mut!((*p).n).write(0);
+                core::ptr::addr_of_mut!((*p).overflow).write(false);
+                let recs = core::ptr::addr_of_mut!((*p).recs) as *mut Rec;
+                let mut i = 0;
+                while i < CAP {
+                    recs.add(i).write(EMPTY);
+                    i += 1;
+                }
+            }
+            c.set(p);
+        }
+        p
+    })
+    .unwrap_or(core::ptr::null_mut())
 }
 
 pub struct Recorder;
@@ -65,15 +92,19 @@ fn masked() -> bool {
 }
 
 fn push(r: Rec) {
-    let _ = LOG.try_with(|l| unsafe {
-        let l = &mut *l.get();
+    let p = log_ptr();
+    if p.is_null() {
+        return;
+    }
+    unsafe {
+        let l = &mut *p;
         if l.n < CAP {
             l.recs[l.n] = r;
             l.n += 1;
         } else {
             l.overflow = true;
         }
-    });
+    }
 }
 
 /// true if this (unmasked, in-window) allocation request must fail
@@ -167,11 +198,12 @@ impl Window {
     /// `fail_at`: index (0-based, among unmasked allocation requests in the window)
     /// of the request that must fail, or None.
     pub fn open(fail_at: Option<usize>) -> Window {
-        LOG.with(|l| unsafe {
-            let l = &mut *l.get();
-            l.n = 0;
-            l.overflow = false;
-        });
+        let p = log_ptr();
+        assert!(!p.is_null(), "allocator log");
+        unsafe {
+            (*p).n = 0;
+            (*p).overflow = false;
+        }
         REQS.with(|r| r.set(0));
         FAIL_AT.with(|f| f.set(fail_at.map(|k| k as i64).unwrap_or(-1)));
         WINDOW.with(|w| w.set(true));
@@ -181,10 +213,10 @@ impl Window {
     pub fn close(self) -> Trace {
         WINDOW.with(|w| w.set(false));
         FAIL_AT.with(|f| f.set(-1));
-        let (recs, overflow) = LOG.with(|l| unsafe {
-            let l = &*l.get();
+        let (recs, overflow) = unsafe {
+            let l = &*log_ptr();
             (l.recs[..l.n].to_vec(), l.overflow)
-        });
+        };
         core::mem::forget(self);
         Trace { recs, overflow }
     }
@@ -199,7 +231,12 @@ impl Drop for Window {
 
 /// Number of records in the current window's log (a position marker).
 pub fn log_pos() -> usize {
-    LOG.with(|l| unsafe { (*l.get()).n })
+    let p = log_ptr();
+    if p.is_null() {
+        0
+    } else {
+        unsafe { (*p).n }
+    }
 }
 
 /// Arm failure injection from now on: the k-th unmasked allocation request
